@@ -357,6 +357,19 @@ Proof.
   destruct P1 as (_ & A & _). congruence.
 Qed.
 
+Lemma loop_read_incb i s : Good s -> incb s = false -> incb (fst (loop_read c nested i s)) = false.
+Proof. intros HG Hi. destruct (loop_read_F i s HG Hi) as (_ & A & _). congruence. Qed.
+
+Lemma loop_read_n_F : forall l s, Good s -> incb s = false -> Post (length l) s (fst (loop_read_n c nested l s)).
+Proof.
+  induction l as [|i r IH]; intros s HG Hi; cbn [loop_read_n length].
+  - apply Post_refl. apply HG.
+  - pose proof (loop_read_F i s HG Hi) as P1. pose proof (loop_read_incb i s HG Hi) as Hi1.
+    destruct (read_continues c nested i s).
+    + exact (Post_trans 1 (length r) _ _ _ P1 (IH _ (Good_post _ _ _ HG P1) Hi1)).
+    + apply (Post_weaken 1); [lia|exact P1].
+Qed.
+
 Lemma run_top_F t s : Good s -> incb s = false -> clean (tr (run_top c nested t s)) = true.
 Proof.
   intros HG Hi. pose proof HG as [Hd Hc].
@@ -391,6 +404,9 @@ Proof.
   - pose proof (Post_emit (Call CLoopMisc) s eq_refl Hc) as P1.
     pose proof (loop_misc_F m _ (Good_post _ _ _ HG P1) Hi) as P2.
     destruct (loop_misc c nested m (emit (Call CLoopMisc) s)) as [s1 rc]. eapply Hret. exact (Post_trans 0 1 _ _ _ P1 P2).
+  - pose proof (Post_emit (Call CLoopRead) s eq_refl Hc) as P1.
+    pose proof (loop_read_n_F l _ (Good_post _ _ _ HG P1) Hi) as P2.
+    eapply Hretof. exact (Post_trans 0 (length l) _ _ _ P1 P2).
 Qed.
 End Fuel.
 
